@@ -71,6 +71,27 @@ CHECKS = {
         "partial": "the Proto string of a gRPC pass-through is rewritten from HTTP/2.0 to HTTP/2 (major/minor unchanged); only major is compared",
         "assumptions": E2E_ASSUME,
     },
+    "C14": {
+        "module": "Vanguard.Props.C14", "namespace": "Vanguard.C14", "streams": ["conc", "history"], "race_streams": ["conc"],
+        "partial": "proved: under the ownership obligations no interleaving of any number of holders ever shares a pooled buffer, and "
+                   "pooled objects behave like new ones; NOT proved: that the Go code meets the obligations (checked on recorded pool "
+                   "traces of real concurrent executions by the Lean trace checker) and freedom from data races on responseWriter "
+                   "fields (Go memory model is outside the model; the race detector runs over the conc stream as support)",
+        "assumptions": E2E_ASSUME + [
+            "schedules are those the Go runtime produces for 2-8 concurrent RPCs per batch on 16 cores; they are sampled, not enumerated",
+            "sync.Pool hands out only what was put into it or new objects (poolHonest)",
+        ],
+        "trusted_extra": ["verif pool hook (verif_hooks_on.go): records Get/Put/Wrap, poisons released buffers"],
+    },
+    "C15": {
+        "module": "Vanguard.Props.C15", "namespace": "Vanguard.C15", "streams": ["history", "e2e"],
+        "partial": "proved on the model of the pooled objects (bytes.Buffer with stale backing array, stateful compressor/decompressor): "
+                   "their previous use is unobservable; that the Go code uses them only through Reset-first protocols is checked by the "
+                   "history stream (every request on a long-lived and on a fresh Transcoder, hostile traffic in between), not proved; "
+                   "real gzip objects are replaced by stateful fakes",
+        "assumptions": E2E_ASSUME + ["garbage collection is suspended during the history stream so that sync.Pool keeps its contents"],
+        "trusted_extra": ["verif pool hook (verif_hooks_on.go): records Get/Put/Wrap, poisons released buffers"],
+    },
     "C18": {
         "module": "Vanguard.Props.C18", "namespace": "Vanguard.C18", "streams": ["e2e"],
         "partial": "no I/O after return is observed by the harness (vanguard starts no goroutine), not modelled",
